@@ -69,10 +69,10 @@ pub fn concretize(v: &Value, rng: &mut impl Rng) -> CV {
 
 #[derive(Clone, Copy)]
 pub struct Mode {
-    reverse: bool,
-    spaces: bool,
-    escape_all: bool,
-    slash: bool,
+    pub reverse: bool,
+    pub spaces: bool,
+    pub escape_all: bool,
+    pub slash: bool,
 }
 
 fn write_str(s: &str, m: Mode, out: &mut String) {
@@ -452,4 +452,31 @@ pub fn all_scalars(stride: u32) -> Value {
         }
     }
     json!({"chars": n, "docs": docs, "bad": bad})
+}
+
+pub use Mode as SpellMode;
+
+impl Mode {
+    #[allow(dead_code)]
+    pub fn plain() -> Mode {
+        Mode { reverse: false, spaces: false, escape_all: false, slash: false }
+    }
+}
+
+fn cv_of(v: &Value) -> CV {
+    match v {
+        Value::Null => CV::Null,
+        Value::Bool(b) => CV::Bool(*b),
+        Value::Number(n) => CV::Num { text: n.to_string(), exact: None },
+        Value::String(s) => CV::Str(s.clone()),
+        Value::Array(a) => CV::Arr(a.iter().map(cv_of).collect()),
+        Value::Object(o) => CV::Obj(o.iter().map(|(k, v)| (k.clone(), cv_of(v))).collect()),
+    }
+}
+
+/// a JSON value written in one of the alternative textual spellings
+pub fn spell_value(v: &Value, m: Mode) -> String {
+    let mut out = String::new();
+    spell(&cv_of(v), m, &mut out);
+    out
 }
